@@ -1,6 +1,314 @@
+//! Export-hook driver: runs crate-private functions of rustfmt (through
+//! `rustfmt_nightly::verif`) on enumerated inputs and prints observations as
+//! NDJSON for TLC.
 #![feature(rustc_private)]
 extern crate rustc_driver;
+
+use std::collections::HashMap;
+use std::io::{BufRead, Write};
+use std::path::PathBuf;
+
+use rustfmt_nightly::verif;
+use rustfmt_nightly::{Config, EmitMode};
+use serde_json::{Value, json};
+
 fn main() {
-    let d = rustfmt_nightly::verif::make_diff("a\nb\n", "a\nc\n", 1);
-    println!("{}", serde_json::to_string(&d).unwrap());
+    let args: Vec<String> = std::env::args().collect();
+    let cmd = args.get(1).map(String::as_str).unwrap_or("");
+    match cmd {
+        "makediff" => makediff(&args[2..]),
+        "makediff-pairs" => makediff_pairs(&args[2..]),
+        _ => {
+            eprintln!("usage: rfv-unit <makediff|makediff-pairs> ...");
+            std::process::exit(2);
+        }
+    }
+}
+
+/// Independent line splitter with the semantics the reports are defined on:
+/// `str::lines` plus one virtual empty line when the text ends in LF.
+fn lines_of(t: &str) -> Vec<String> {
+    if t.is_empty() {
+        return vec![];
+    }
+    t.split('\n')
+        .map(|p| p.strip_suffix('\r').unwrap_or(p).to_owned())
+        .collect()
+}
+
+struct Ids {
+    map: HashMap<String, u32>,
+    names: Vec<String>,
+}
+impl Ids {
+    fn new() -> Ids {
+        Ids {
+            map: HashMap::new(),
+            names: vec![],
+        }
+    }
+    fn id(&mut self, s: &str) -> u32 {
+        if let Some(i) = self.map.get(s) {
+            return *i;
+        }
+        let i = self.names.len() as u32 + 1;
+        self.map.insert(s.to_owned(), i);
+        self.names.push(s.to_owned());
+        i
+    }
+}
+
+fn xorshift(s: &mut u64) -> u64 {
+    *s ^= *s << 13;
+    *s ^= *s >> 7;
+    *s ^= *s << 17;
+    *s
+}
+
+/// Build the observation record for one (orig, fmt, ctx).
+fn observe(orig: &str, fmt: &str, ctx: usize, with_emitters: bool) -> Value {
+    let mut ids = Ids::new();
+    let ol: Vec<u32> = lines_of(orig).iter().map(|l| ids.id(l)).collect();
+    let fl: Vec<u32> = lines_of(fmt).iter().map(|l| ids.id(l)).collect();
+    let hunks = verif::make_diff(orig, fmt, ctx);
+    let hj: Vec<Value> = hunks
+        .iter()
+        .map(|(ln, lno, lines)| {
+            json!({"ln": ln, "lno": lno,
+                   "lines": lines.iter().map(|(t, s)| json!([t.to_string(), ids.id(s)])).collect::<Vec<_>>()})
+        })
+        .collect();
+    let mut rec = json!({
+        "orig": ol, "fmt": fl, "ctx": ctx, "hunks": hj,
+        "chunks": [], "reparsed": [], "json": [], "cs": [],
+        "has": {"ml": false, "json": false, "cs": false},
+        "json_wf": true, "cs_wf": true,
+    });
+    if with_emitters {
+        // modified lines: structure, printed form, re-parsed form
+        let ml = verif::modified_lines(orig, fmt);
+        let printed = ml.to_string();
+        let chunk_json = |m: &rustfmt_nightly::ModifiedLines, ids: &mut Ids| -> Vec<Value> {
+            m.chunks
+                .iter()
+                .map(|c| {
+                    json!({"at": c.line_number_orig, "removed": c.lines_removed,
+                       "added": c.lines.iter().map(|l| ids.id(l)).collect::<Vec<_>>()})
+                })
+                .collect()
+        };
+        rec["chunks"] = json!(chunk_json(&ml, &mut ids));
+        rec["reparsed"] = match printed.parse::<rustfmt_nightly::ModifiedLines>() {
+            Ok(m) => json!(chunk_json(&m, &mut ids)),
+            Err(()) => json!([{"at": 0, "removed": 0, "added": []}]),
+        };
+        rec["has"]["ml"] = json!(true);
+        // the ModifiedLines emitter must print exactly that
+        let mut cfg = Config::default();
+        cfg.set().emit_mode(EmitMode::ModifiedLines);
+        if let Ok((bytes, _)) = verif::emit_pair(&cfg, Some(PathBuf::from("x.rs")), orig, fmt) {
+            if bytes != printed.as_bytes() {
+                rec["reparsed"] = json!([{"at": 0, "removed": 0, "added": []}]);
+            }
+        }
+        // json
+        let mut cfg = Config::default();
+        cfg.set().emit_mode(EmitMode::Json);
+        match verif::emit_pair(&cfg, Some(PathBuf::from("x.rs")), orig, fmt) {
+            Ok((bytes, _)) => match serde_json::from_slice::<Value>(&bytes) {
+                Ok(doc) => {
+                    let mut blocks = vec![];
+                    let mut wf = doc.is_array();
+                    for f in doc.as_array().cloned().unwrap_or_default() {
+                        for b in f["mismatches"].as_array().cloned().unwrap_or_default() {
+                            let split = |s: &str, ids: &mut Ids| -> Vec<u32> {
+                                let mut v: Vec<&str> = s.split('\n').collect();
+                                if v.last() == Some(&"") {
+                                    v.pop();
+                                }
+                                v.iter().map(|l| ids.id(l)).collect()
+                            };
+                            let (Some(o), Some(e)) = (b["original"].as_str(), b["expected"].as_str())
+                            else {
+                                wf = false;
+                                continue;
+                            };
+                            blocks.push(json!({
+                                "ob": b["original_begin_line"], "oe": b["original_end_line"],
+                                "eb": b["expected_begin_line"], "ee": b["expected_end_line"],
+                                "orig": split(o, &mut ids), "exp": split(e, &mut ids)}));
+                        }
+                    }
+                    rec["json"] = json!(blocks);
+                    rec["json_wf"] = json!(wf);
+                }
+                Err(_) => rec["json_wf"] = json!(false),
+            },
+            Err(_) => rec["json_wf"] = json!(false),
+        }
+        rec["has"]["json"] = json!(true);
+        // checkstyle: raw document; well-formedness and entries are decided by
+        // an XML parser on the Python side.
+        let mut cfg = Config::default();
+        cfg.set().emit_mode(EmitMode::Checkstyle);
+        if let Ok((bytes, _)) = verif::emit_pair(&cfg, Some(PathBuf::from("x.rs")), orig, fmt) {
+            rec["cs_xml"] = json!(String::from_utf8_lossy(&bytes));
+        }
+        rec["line_names"] = json!(ids.names);
+    }
+    rec
+}
+
+fn script_of(orig: &str, fmt: &str) -> String {
+    diff::lines(orig, fmt)
+        .iter()
+        .map(|r| match r {
+            diff::Result::Left(_) => 'L',
+            diff::Result::Right(_) => 'R',
+            diff::Result::Both(..) => 'B',
+        })
+        .collect()
+}
+
+/// makediff <table.ndjson> <max_lines> <seed> <sample_per_mille>
+/// Enumerates all pairs of texts (line sequences of length <= max_lines over
+/// {"a","b",""}, with and without final newline) x context 0..3; compares the
+/// real make_diff with the model's table; prints summary + observation records.
+fn makediff(args: &[String]) {
+    let table_path = &args[0];
+    let max_lines: usize = args[1].parse().unwrap();
+    let seed: u64 = args[2].parse().unwrap();
+    let per_mille: u64 = args[3].parse().unwrap();
+    // model table: (script, ctx) -> hunks [(ln, lno, [(tag, idx)])]
+    let mut table: HashMap<(String, usize), Value> = HashMap::new();
+    for line in std::io::BufReader::new(std::fs::File::open(table_path).unwrap()).lines() {
+        let v: Value = serde_json::from_str(&line.unwrap()).unwrap();
+        let script: String = v["script"]
+            .as_array()
+            .unwrap()
+            .iter()
+            .map(|x| x.as_str().unwrap())
+            .collect();
+        table.insert((script, v["ctx"].as_u64().unwrap() as usize), v["hunks"].clone());
+    }
+    let alphabet = ["a", "b", ""];
+    let mut seqs: Vec<Vec<&str>> = vec![vec![]];
+    let mut frontier: Vec<Vec<&str>> = vec![vec![]];
+    for _ in 0..max_lines {
+        let mut next = vec![];
+        for s in &frontier {
+            for a in alphabet {
+                let mut t = s.clone();
+                t.push(a);
+                next.push(t);
+            }
+        }
+        seqs.extend(next.iter().cloned());
+        frontier = next;
+    }
+    let mut texts: Vec<String> = vec![];
+    for s in &seqs {
+        texts.push(s.join("\n"));
+        texts.push(s.join("\n") + "\n");
+    }
+    texts.sort();
+    texts.dedup();
+    let out = std::io::stdout();
+    let mut out = std::io::BufWriter::new(out.lock());
+    let mut rng = seed.wrapping_mul(0x9E37_79B9_7F4A_7C15) | 1;
+    let (mut n, mut matched, mut unmatched, mut outside, mut sampled) = (0u64, 0u64, 0u64, 0u64, 0u64);
+    let mut scripts_seen: std::collections::HashSet<(String, usize)> = Default::default();
+    for o in &texts {
+        for f in &texts {
+            let script = script_of(o, f);
+            let ol = lines_of(o);
+            let fl = lines_of(f);
+            for ctx in 0..4usize {
+                n += 1;
+                let real = verif::make_diff(o, f, ctx);
+                let mut drift = false;
+                match table.get(&(script.clone(), ctx)) {
+                    Some(pred) => {
+                        scripts_seen.insert((script.clone(), ctx));
+                        // map predicted indices to texts and compare
+                        let pred_h: Vec<(u64, u64, Vec<(String, String)>)> = pred
+                            .as_array()
+                            .unwrap()
+                            .iter()
+                            .map(|h| {
+                                (
+                                    h["ln"].as_u64().unwrap(),
+                                    h["lno"].as_u64().unwrap(),
+                                    h["lines"]
+                                        .as_array()
+                                        .unwrap()
+                                        .iter()
+                                        .map(|l| {
+                                            let t = l[0].as_str().unwrap().to_owned();
+                                            let i = l[1].as_u64().unwrap() as usize - 1;
+                                            let s = if t == "E" { fl[i].clone() } else { ol[i].clone() };
+                                            (t, s)
+                                        })
+                                        .collect(),
+                                )
+                            })
+                            .collect();
+                        let real_h: Vec<(u64, u64, Vec<(String, String)>)> = real
+                            .iter()
+                            .map(|(a, b, l)| {
+                                (
+                                    *a as u64,
+                                    *b as u64,
+                                    l.iter().map(|(t, s)| (t.to_string(), s.clone())).collect(),
+                                )
+                            })
+                            .collect();
+                        if pred_h == real_h {
+                            matched += 1;
+                        } else {
+                            unmatched += 1;
+                            drift = true;
+                        }
+                    }
+                    None => outside += 1,
+                }
+                let pick = xorshift(&mut rng) % 1000 < per_mille;
+                if drift || pick {
+                    sampled += 1;
+                    let mut rec = observe(o, f, ctx, ctx == 0);
+                    rec["drift"] = json!(drift);
+                    rec["o"] = json!(o);
+                    rec["f"] = json!(f);
+                    writeln!(out, "{}", rec).unwrap();
+                }
+            }
+        }
+    }
+    writeln!(
+        out,
+        "{}",
+        json!({"summary": true, "evaluations": n, "matched": matched, "unmatched": unmatched,
+               "outside_table": outside, "sampled": sampled, "texts": texts.len(),
+               "distinct_scripts": scripts_seen.len()})
+    )
+    .unwrap();
+}
+
+/// makediff-pairs: reads NDJSON {"o":..,"f":..} from stdin, prints observation
+/// records for ctx 0..3 (emitters at ctx 0).
+fn makediff_pairs(_args: &[String]) {
+    let stdin = std::io::stdin();
+    let out = std::io::stdout();
+    let mut out = std::io::BufWriter::new(out.lock());
+    for line in stdin.lock().lines() {
+        let v: Value = serde_json::from_str(&line.unwrap()).unwrap();
+        let (o, f) = (v["o"].as_str().unwrap(), v["f"].as_str().unwrap());
+        for ctx in 0..4usize {
+            let mut rec = observe(o, f, ctx, ctx == 0);
+            rec["o"] = json!(o);
+            rec["f"] = json!(f);
+            rec["name"] = v["name"].clone();
+            writeln!(out, "{}", rec).unwrap();
+        }
+    }
 }
